@@ -119,21 +119,21 @@ End Ex.
 
 Example C15_nonvacuous :
   (* low class *)
-  snd (c15_case Ex.post Ex.other None true (Some 102400) [102400] false) = VRelayed 102400 /\
-  snd (c15_case Ex.post Ex.other None true (Some 102401) [102401] false) = VLocal 413 /\
-  snd (c15_case Ex.post Ex.other None true None [60000; 42400] false) = VRelayed 102400 /\
-  snd (c15_case Ex.post Ex.other None true None [102399; 2] false) = VLocal 400 /\
-  snd (c15_case Ex.post Ex.other None false None [102399; 2] false) = VLocal 403 /\
+  snd (c15_case Ex.post Ex.other None 0 (Some 102400) [102400] false) = VRelayed 102400 /\
+  snd (c15_case Ex.post Ex.other None 0 (Some 102401) [102401] false) = VLocal 413 /\
+  snd (c15_case Ex.post Ex.other None 0 None [60000; 42400] false) = VRelayed 102400 /\
+  snd (c15_case Ex.post Ex.other None 0 None [102399; 2] false) = VLocal 400 /\
+  snd (c15_case Ex.post Ex.other None 1 None [102399; 2] false) = VLocal 403 /\
   (* large class, case variants *)
-  c15_case Ex.put Ex.log None true None [104857600] false = (104857600, true, VRelayed 104857600) /\
-  snd (c15_case Ex.put Ex.log None true None [104857599; 2] false) = VLocal 400 /\
-  snd (c15_case Ex.post Ex.machine (Some Ex.tele) true (Some 104857601) [] false) = VLocal 413 /\
-  fst (c15_case Ex.post Ex.machine (Some Ex.tele) true None [] false) = (104857600, true) /\
+  c15_case Ex.put Ex.log None 0 None [104857600] false = (104857600, true, VRelayed 104857600) /\
+  snd (c15_case Ex.put Ex.log None 0 None [104857599; 2] false) = VLocal 400 /\
+  snd (c15_case Ex.post Ex.machine (Some Ex.tele) 0 (Some 104857601) [] false) = VLocal 413 /\
+  fst (c15_case Ex.post Ex.machine (Some Ex.tele) 0 None [] false) = (104857600, true) /\
   (* near misses stay in the low class *)
-  fst (c15_case Ex.put Ex.log_slash None true None [] false) = (102400, false) /\
-  fst (c15_case Ex.post Ex.machine (Some Ex.tele_x) true None [] false) = (102400, false) /\
-  fst (c15_case Ex.post Ex.log None true None [] false) = (102400, false) /\
-  fst (c15_case Ex.get Ex.machine (Some Ex.tele) true None [] false) = (102400, false) /\
+  fst (c15_case Ex.put Ex.log_slash None 0 None [] false) = (102400, false) /\
+  fst (c15_case Ex.post Ex.machine (Some Ex.tele_x) 0 None [] false) = (102400, false) /\
+  fst (c15_case Ex.post Ex.log None 0 None [] false) = (102400, false) /\
+  fst (c15_case Ex.get Ex.machine (Some Ex.tele) 0 None [] false) = (102400, false) /\
   (* [serve] itself on a small instance: 3 bytes in two frames are relayed in one write *)
   (let a := {| a_logon_id := 0; a_process_id := 1; a_is_admin := 1%Z;
                a_destination_ipv4 := 0; a_destination_port := 80 |} in
